@@ -1996,6 +1996,19 @@ fn run_export(ctx: &Ctx, idx: usize, case: &(Vec<Vec<u8>>, u8, u8), qs: &[Query]
                 }
             }
         }
+        // the keyed export given a new expiry: chunk hashes, lookup tables and key are those of the export, and the
+        // manager still answers like the original
+        let d_r = ctx.fresh_dir("r");
+        let sdesc = format!("{desc}, then export_with_expiration of the export");
+        let rex = step(prop, "export-with-expiration-of-export", &sdesc, &replay, out, || exp.export_with_expiration(&d_r, Duration::from_secs(2000)).map_err(es));
+        if let Some(rex) = rex {
+            out.count("vac:exports_given_a_new_expiry", 1);
+            let rb = std::fs::read(&rex.path).unwrap_or_default();
+            check_export_bytes(&ob, &rb, &key, flags, &sdesc, &replay, m, out);
+            let eq = clean(&[(&xs[..], key)], m);
+            let _ = compare_managers(ctx, &d_o, &d_r, &w, eq, qs, &sdesc, &replay, out);
+        }
+        rm(&d_r);
         out.distinct(format!("{}:k{}:f{}", shard_str(xorbs), k, fl));
     }
     rm(&d_o);
